@@ -71,7 +71,7 @@ def verify_A(mod, tier, seed=0):
     # concrete smoke of the same harnesses in the real environment (model validation)
     smoke = list(mod.smoke(tier)) if hasattr(mod, "smoke") else []
     if smoke and not res["violations"]:
-        items = [{"module": modname, "fn": fn, "call": {"args": list(args), "kwargs": {}}} for fn, args in smoke]
+        items = [{"module": modname, "fn": it[0], "call": {"args": list(it[1]), "kwargs": {}}, "ctx": {"part": it[2] if len(it) > 2 else 0, "nparts": it[3] if len(it) > 3 else 1, "tier": tier}} for it in smoke]
         out, err = batch_replay(items)
         if out is None:
             res["harness_errors"].append(f"real-environment smoke failed to run: {err}")
@@ -117,16 +117,17 @@ def absorb_A(res, mod, jobs, results):
             res["cases"].add((job.fn,) + tuple(c))
         pf["cases"] += len(r["cases"])
         for k, h in r["hits"].items():
-            res["known_hits"].setdefault(k, {"fn": job.fn, **h})
+            res["known_hits"].setdefault(k, {"fn": job.fn, "ctx": {"part": job.part, "nparts": job.nparts, "tier": job.tier}, **h})
         bad = [m for m in r["messages"] if m["state"] in ("POST_FAIL", "EXEC_ERR", "POST_ERR", "SYNTAX_ERR", "IMPORT_ERR")]
         if bad:
             for m in bad:
                 if m["call"] is None:
                     res["harness_errors"].append(f"{job.label}: {m['state']} {m['message'][:500]}")
                     continue
-                rep = se_runner.replay(modname, job.fn, m["call"], extra_env={"VF_KNOWN": "on"})
+                ctx = {"part": job.part, "nparts": job.nparts, "tier": job.tier}
+                rep = se_runner.replay(modname, job.fn, m["call"], ctx, extra_env={"VF_KNOWN": "on"})
                 res["traces_validated"] += 1
-                record = {"property": pid, "harness": f"{modname}.{job.fn}", "call": m["call"], "solver_message": m["message"], "replay": rep}
+                record = {"property": pid, "harness": f"{modname}.{job.fn}", "call": m["call"], "ctx": ctx, "solver_message": m["message"], "replay": rep}
                 if rep["outcome"] in ("fail", "exception", "timeout"):
                     res["violations"].append(record)
                 else:
@@ -153,7 +154,7 @@ def confirm_known_hits(res, mod):
     for key, h in sorted(res["known_hits"].items()):
         fn = h.get("fn")
         modname = h.get("module", mod.__name__)
-        rep = se_runner.replay(modname, fn, {"args": h["args"], "kwargs": {}}, extra_env={"VF_KNOWN": "off"})
+        rep = se_runner.replay(modname, fn, {"args": h["args"], "kwargs": {}}, h.get("ctx"), extra_env={"VF_KNOWN": "off"})
         res["traces_validated"] += 1
         ent = F.by_id(key)
         if rep["outcome"] in ("fail", "exception", "timeout"):
@@ -241,7 +242,7 @@ def main(argv):
     if "--replay" in argv:
         rec = json.load(open(argv[argv.index("--replay") + 1]))
         m, _, fn = rec["harness"].rpartition(".")
-        rep = se_runner.replay(m, fn, rec["call"], extra_env={"VF_KNOWN": "on"})
+        rep = se_runner.replay(m, fn, rec["call"], rec.get("ctx"), extra_env={"VF_KNOWN": "on"})
         print(json.dumps(rep, indent=1))
         return 1 if rep["outcome"] != "pass" else 0
     t0 = time.time()
